@@ -1,4 +1,8 @@
+#![allow(dead_code)]
 mod adapters;
+mod corpus;
+mod hirobs;
+mod horacle;
 mod fsrun;
 mod names;
 mod spec;
@@ -13,6 +17,7 @@ fn main() {
         "names-gen" => names::cmd_gen(&args),
         "names-impl" => names::cmd_impl(&args),
         "fs" => fsrun::cmd_fs(&args),
+        "hir" => hirobs::cmd_hir(&args),
         "adapters-gen" => adapters::cmd_gen(&args),
         "adapters-impl" => adapters::cmd_impl(&args),
         "adapters-canon" => adapters::cmd_canon(&args),
